@@ -488,6 +488,42 @@ func runFF(r *Result, thorough bool, prop string) {
 				t.f(&b, &f, src, cl, rng)
 				apply(t.name, t.changes, &b, &f, t.name)
 			}
+			// a second response to the SAME node: it first adopts the genuine response, then the very
+			// same signed block comes back with another frame (every tampering again, applied to the
+			// frame only when it leaves the block alone) — what was verified for the first pair says
+			// nothing about the second
+			for _, t := range ffTampers {
+				var b, b2 hg.Block
+				var f, f2 hg.Frame
+				jsonCopy(blk0, &b)
+				jsonCopy(frm0, &f)
+				jsonCopy(blk0, &b2)
+				jsonCopy(frm0, &f2)
+				t.f(&b2, &f2, src, cl, rng)
+				bh1, _ := b.Body.Hash()
+				bh2, _ := b2.Body.Hash()
+				fh1, _ := f.Hash()
+				fh2, _ := f2.Hash()
+				if !bytes.Equal(bh1, bh2) || len(b2.Signatures) != len(b.Signatures) || bytes.Equal(fh1, fh2) {
+					continue // this tampering touches the block (or nothing): covered above on fresh nodes
+				}
+				victim := freshVictim()
+				if cls, _ := guarded(func() error { return victim.core.FastForward(&b, &f) }); cls != "ok" {
+					victim.store.Close()
+					continue
+				}
+				before := victim.digest()
+				var b3 hg.Block
+				jsonCopy(blk0, &b3)
+				cls, det := guarded(func() error { return victim.core.FastForward(&b3, &f2) })
+				r.Inc("ff_replayed_block_with_other_frame_"+cls, 1)
+				if cls == "ok" {
+					r.Violate("impl-violation", fmt.Sprintf("after adopting a genuine response the node adopted the same block again with a tampered frame (%s)", t.name), "replayed-block-other-frame:"+t.name, map[string]string{"tamper": t.name})
+				} else if after := victim.digest(); after != before {
+					r.Violate("impl-violation", fmt.Sprintf("a refused replay of the anchor block with a tampered frame (%s: %s) changed the node", t.name, det), "replayed-refused-not-noop:"+t.name, map[string]string{"tamper": t.name})
+				}
+				victim.store.Close()
+			}
 			// D9: the real Node.fastForward in front of a hostile serving peer
 			nodeLevelFF(r, rng, cl, blk0, frm0, src)
 		} else {
